@@ -129,8 +129,11 @@ def apply(tree, idx, how):
     return ast.unparse(t)
 
 
-def run_checks(src_dir, props, scale, timeout):
-    env = dict(os.environ, PBT_SRC=src_dir, VERIF_SEED=os.environ.get("VERIF_SEED", "1"), PBT_QUICK_SHARDS="2")
+ALL_PROPS = [f"C{i:02d}" for i in range(1, 21)]
+
+
+def run_checks(src_dir, props, scale, timeout, shards="2"):
+    env = dict(os.environ, PBT_SRC=src_dir, VERIF_SEED=os.environ.get("VERIF_SEED", "1"), PBT_QUICK_SHARDS=shards)
     env.pop("PBT_COVER", None)
     for pid in props:
         try:
@@ -176,6 +179,12 @@ def work(job):
         status, pid, first = run_checks(os.path.join(tmp, "src"), props, scale, 240)
         suite = ""
         if status == "SURVIVED":
+            # second look: every registered check at its full quick budget
+            rest = [p for p in ALL_PROPS if p not in props]
+            status, pid, first = run_checks(os.path.join(tmp, "src"), list(props) + rest, 1.0, 600, shards="4")
+            if status == "CAUGHT":
+                status = "CAUGHT-FULL"
+        if status == "SURVIVED":
             suite = run_suite(os.path.join(tmp, "src"))
         return rel, ln, desc, status, pid, first, suite
     except Exception as exc:  # noqa: BLE001
@@ -192,6 +201,7 @@ def main():
     ap.add_argument("--scale", type=float, default=0.5)
     ap.add_argument("--files", default="")
     ap.add_argument("--out", default=os.path.join(VERIF, "mutants", "AUTOMUT.md"))
+    ap.add_argument("--recheck", default="", help="an earlier report: only its SURVIVED rows are evaluated again (same seed / per-file)")
     args = ap.parse_args()
     rng = random.Random(args.seed)
     files = [f for f in args.files.split(",") if f] or list(FILE_PROPS)
@@ -220,6 +230,13 @@ def main():
                 continue
             line = src.splitlines()[ln - 1].strip()[:90]
             jobs.append((rel, idx, ln, f"{desc} | `{line}`", how, text, FILE_PROPS[rel], args.scale))
+    if args.recheck:
+        keep = set()
+        for ln_ in open(args.recheck):
+            c = [x.strip() for x in ln_.split("|")]
+            if len(c) > 4 and c[3] == "SURVIVED":
+                keep.add((c[1], c[2]))
+        jobs = [j for j in jobs if (f"{j[0]}:{j[2]}", j[3].replace("|", "/")) in keep]
     print(f"{len(jobs)} mutants", flush=True)
     results = []
     with ThreadPoolExecutor(args.jobs) as ex:
@@ -232,7 +249,7 @@ def main():
     lines = ["# Automatic mutants vs. the registered quick checks (tools/automut.py)", "",
              f"{len(results)} mutants (seed {args.seed}, up to {args.per_file} per file, case counts scaled by {args.scale}, 2 shards): " +
              ", ".join(f"{k}: {v}" for k, v in sorted(counts.items())), "",
-             "CAUGHT = a check of a property anchored in that file printed a VIOLATION; HARNESS / TIMEOUT / BROKEN-IMPORT = the mutant breaks the "
+             "CAUGHT = a check of a property anchored in that file printed a VIOLATION at a quarter of the quick budget; CAUGHT-FULL = only the second look (all 20 checks at the full quick budget) did; HARNESS / TIMEOUT / BROKEN-IMPORT = the mutant breaks the "
              "package so badly that the harness cannot run (such a change cannot pass the repository's tests either); SURVIVED = no check noticed "
              "(the last column says whether the repository's own suite does).", "",
              "| file:line | mutation | result | by | first violation / suite |", "|---|---|---|---|---|"]
